@@ -134,4 +134,301 @@ theorem authRequest_sound (cfg : Config) (action : Str) (rq : Req) (r : Option I
         exact ⟨i, a, hc, Or.inr b⟩
       · simp at h
 
+/-! ### IAM policy documents: strings.Split, wildcard matching, and what `GetActions` emits -/
+
+theorem someSuffix_of_suffix (f : Str → Bool) (a t : Str) (h : f t = true) : someSuffix f (a ++ t) = true := by
+  induction a with
+  | nil => cases t <;> simp [someSuffix, h]
+  | cons c a' ih => simp [someSuffix, ih]
+
+theorem splitOn_ne_nil (c : Char) (s : Str) : splitOn c s ≠ [] := by
+  induction s with
+  | nil => simp [splitOn]
+  | cons x xs ih =>
+    simp only [splitOn]
+    split
+    · simp
+    · split <;> simp
+
+theorem join_splitOn (c : Char) (s : Str) : joinWith c (splitOn c s) = s := by
+  induction s with
+  | nil => simp [splitOn, joinWith]
+  | cons x xs ih =>
+    simp only [splitOn]
+    split
+    · rename_i hx
+      cases h : splitOn c xs with
+      | nil => exact absurd h (splitOn_ne_nil c xs)
+      | cons a t =>
+        rw [h] at ih
+        simp [joinWith, ih, hx]
+    · cases h : splitOn c xs with
+      | nil => exact absurd h (splitOn_ne_nil c xs)
+      | cons a t =>
+        rw [h] at ih
+        cases t with
+        | nil => simp [joinWith] at ih ⊢; exact ih
+        | cons b t' => simp [joinWith] at ih ⊢; exact ih
+
+theorem splitOn_no_sep (c : Char) (s : Str) : ∀ piece ∈ splitOn c s, c ∉ piece := by
+  induction s with
+  | nil => simp [splitOn]
+  | cons x xs ih =>
+    simp only [splitOn]
+    split
+    · intro piece hp
+      simp only [List.mem_cons] at hp
+      rcases hp with rfl | hp
+      · simp
+      · exact ih piece hp
+    · rename_i hx
+      cases h : splitOn c xs with
+      | nil => exact absurd h (splitOn_ne_nil c xs)
+      | cons a t =>
+        rw [h] at ih
+        intro piece hp
+        simp only [List.mem_cons] at hp
+        rcases hp with rfl | hp
+        · have := ih a (by simp)
+          simp only [List.mem_cons, not_or]
+          exact ⟨fun e => hx e.symm, this⟩
+        · exact ih piece (by simp [hp])
+
+theorem prefix_colon (u v g w : Str) (hu : ':' ∉ u) (hv : ':' ∉ v)
+    (h : (u ++ ':' :: g).isPrefixOf (v ++ ':' :: w) = true) : u = v ∧ g.isPrefixOf w = true := by
+  induction u generalizing v with
+  | nil =>
+    cases v with
+    | nil => simpa using h
+    | cons d v' =>
+      simp only [List.nil_append, List.cons_append, List.isPrefixOf_cons_cons, Bool.and_eq_true, beq_iff_eq] at h
+      simp only [List.mem_cons, not_or] at hv
+      exact absurd h.1 hv.1
+  | cons c u' ih =>
+    simp only [List.mem_cons, not_or] at hu
+    cases v with
+    | nil =>
+      simp only [List.nil_append, List.cons_append, List.isPrefixOf_cons_cons, Bool.and_eq_true, beq_iff_eq] at h
+      exact absurd h.1.symm hu.1
+    | cons d v' =>
+      simp only [List.cons_append, List.isPrefixOf_cons_cons, Bool.and_eq_true, beq_iff_eq] at h
+      simp only [List.mem_cons, not_or] at hv
+      obtain ⟨e1, e2⟩ := ih v' hu.2 hv.2 h.2
+      exact ⟨by rw [h.1, e1], e2⟩
+
+theorem eq_colon (u v g w : Str) (hu : ':' ∉ u) (hv : ':' ∉ v)
+    (h : u ++ ':' :: g = v ++ ':' :: w) : u = v ∧ g = w := by
+  have h1 : (u ++ ':' :: g).isPrefixOf (v ++ ':' :: w) = true := by rw [h]; simp
+  have h2 : (v ++ ':' :: w).isPrefixOf (u ++ ':' :: g) = true := by rw [h]; simp
+  obtain ⟨e, _⟩ := prefix_colon u v g w hu hv h1
+  subst e
+  exact ⟨rfl, by simpa using h⟩
+
+theorem globMatch_prefix_star (g s : Str) : globMatch (g ++ ['*']) (g ++ s) = true := by
+  induction g with
+  | nil =>
+    have h := someSuffix_of_suffix (globMatch []) s [] (by simp [globMatch])
+    simp only [List.append_nil] at h
+    simp only [List.nil_append, globMatch, if_true]
+    exact h
+  | cons c g' ih =>
+    simp only [List.cons_append, globMatch]
+    split
+    · exact someSuffix_of_suffix _ [c] _ ih
+    · simp [headMatch, ih]
+
+theorem globMatch_self (g : Str) : globMatch g g = true := by
+  induction g with
+  | nil => simp [globMatch]
+  | cons c g' ih =>
+    simp only [globMatch]
+    split
+    · exact someSuffix_of_suffix _ [c] _ ih
+    · simp [headMatch, ih]
+
+
+/-- the values `MapToStatementAction` can return -/
+theorem mapTo_cases (x : Str) :
+    (mapToStatementAction x = [] ) ∨ (mapToStatementAction x ≠ [] ∧ iamAction ("s3:".toList ++ x) = some (mapToStatementAction x)
+      ∧ ':' ∉ mapToStatementAction x ∧ (mapToStatementAction x).getLast? ≠ some '*') := by
+  unfold mapToStatementAction
+  split
+  · rename_i h; subst h; right; decide
+  · split
+    · rename_i h; subst h; right; decide
+    · split
+      · rename_i h; subst h; right; decide
+      · split
+        · rename_i h; subst h; right; decide
+        · split
+          · rename_i h; subst h; right; decide
+          · left; rfl
+
+/-- every element `GetActions` emits for a (resource, action) pair: a global action (resource `…:*`) or `action:bucketpattern` -/
+theorem actionsOfPair_mem (res a x : Str) (h : x ∈ actionsOfPair res a) :
+    ∃ region account r5 x' : Str,
+      res = joinWith ':' ["arn".toList, "aws".toList, "s3".toList, region, account, r5] ∧ a = "s3:".toList ++ x' ∧ ':' ∉ r5 ∧
+      ((r5 = "*".toList ∧ x = mapToStatementAction x') ∨
+       (∃ bk, r5 = bk ++ "/*".toList ∧ x = mapToStatementAction x' ++ ':' :: bk)) := by
+  unfold actionsOfPair at h
+  split at h
+  · rename_i a1 b1 c1 region account r5 hs
+    split at h
+    · rename_i habc
+      obtain ⟨rfl, rfl, rfl⟩ := habc
+      split at h
+      · rename_i s x' hsa
+        split at h
+        · rename_i hs3
+          subst hs3
+          have hres : res = joinWith ':' ["arn".toList, "aws".toList, "s3".toList, region, account, r5] := by
+            rw [← hs, join_splitOn]
+          have ha : a = "s3".toList ++ ':' :: x' := by
+            have := join_splitOn ':' a
+            rw [hsa] at this
+            simpa [joinWith] using this.symm
+          have hr5 : ':' ∉ r5 := splitOn_no_sep ':' res r5 (by rw [hs]; simp)
+          refine ⟨region, account, r5, x', hres, by simpa using ha, hr5, ?_⟩
+          simp only at h
+          split at h
+          · rename_i hstar
+            left
+            exact ⟨hstar, by simpa using h⟩
+          · split at h
+            · rename_i bk star hsl
+              split at h
+              · rename_i hst
+                subst hst
+                right
+                refine ⟨bk, ?_, by simpa using h⟩
+                have := join_splitOn '/' r5
+                rw [hsl] at this
+                simpa [joinWith] using this.symm
+              · simp at h
+            · simp at h
+        · simp at h
+      · simp at h
+    · simp at h
+  · simp at h
+
+theorem getActions_mem (p : List Stmt) (x : Str) (h : x ∈ getActions p) :
+    ∃ st ∈ p, st.effect = "Allow".toList ∧ ∃ res ∈ st.resources, ∃ a ∈ st.actions, x ∈ actionsOfPair res a := by
+  unfold getActions at h
+  simp only [List.mem_flatMap] at h
+  obtain ⟨st, hst, hx⟩ := h
+  split at hx
+  · rename_i he
+    simp only [List.mem_flatMap] at hx
+    obtain ⟨res, hres, a, ha, hxa⟩ := hx
+    exact ⟨st, hst, he, res, hres, a, ha, hxa⟩
+  · simp at hx
+
+theorem exists_init_of_getLast? (l : Str) (c : Char) (h : l.getLast? = some c) : ∃ g, l = g ++ [c] := by
+  induction l with
+  | nil => simp at h
+  | cons a t ih =>
+    cases t with
+    | nil => simp at h; exact ⟨[], by simp [h]⟩
+    | cons b t' =>
+      rw [List.getLast?_cons_cons] at h
+      obtain ⟨g, hg⟩ := ih h
+      exact ⟨a :: g, by rw [hg]; simp⟩
+
+theorem getLast?_append_cons (u : Str) (c : Char) (v : Str) (hv : v ≠ []) : (u ++ c :: v).getLast? = v.getLast? := by
+  induction u with
+  | nil =>
+    cases v with
+    | nil => exact absurd rfl hv
+    | cons d v' => simp [List.getLast?_cons_cons]
+  | cons a u' ih =>
+    cases hu : u' ++ c :: v with
+    | nil => simp at hu
+    | cons e r => rw [List.cons_append, hu, List.getLast?_cons_cons, ← hu, ih]
+
+/-- one emitted element that makes `canDo` true is named by its statement -/
+theorem element_named (res a x action bucket : Str) (hx : x ∈ actionsOfPair res a)
+    (ha : ':' ∉ action) (hne : action ≠ [])
+    (hgrant : x = adminA ∨ x = action ∨
+      (bucket ≠ [] ∧ (if x.getLast? = some '*' then
+          x.dropLast.isPrefixOf (action ++ ':' :: bucket) || x.dropLast.isPrefixOf (adminA ++ ':' :: bucket)
+        else x == (action ++ ':' :: bucket) || x == (adminA ++ ':' :: bucket)) = true)) :
+    resourceNames res bucket ∧ (iamAction a = some action ∨ iamAction a = some adminA) := by
+  obtain ⟨region, account, r5, x', hres, hax, hr5, hform⟩ := actionsOfPair_mem res a x hx
+  have hadm : ':' ∉ adminA := by decide
+  rcases hform with ⟨hstar, hxv⟩ | ⟨bk, hbk, hxv⟩
+  · -- global action: the resource is `arn:aws:s3:…:*`
+    have hrn : resourceNames res bucket := ⟨region, account, r5, hres, Or.inl hstar⟩
+    rcases mapTo_cases x' with h0 | ⟨hn0, hiam, hcol, hlast⟩
+    · -- unknown IAM action: emitted as "", grants nothing
+      rw [h0] at hxv
+      subst hxv
+      rcases hgrant with h | h | ⟨_, h⟩
+      · exact absurd h (by decide)
+      · exact absurd h.symm hne
+      · simp at h
+    · rw [← hax] at hiam
+      rcases hgrant with h | h | ⟨_, h⟩
+      · exact ⟨hrn, Or.inr (by rw [hiam, ← hxv, h])⟩
+      · exact ⟨hrn, Or.inl (by rw [hiam, ← hxv, h])⟩
+      · rw [← hxv] at hlast hcol
+        simp only [hlast, if_false, Bool.or_eq_true, beq_iff_eq] at h
+        rcases h with h | h <;> (rw [h] at hcol; simp at hcol)
+  · -- bucket-scoped action `sa:bk` from resource `…:bk/*`
+    have hbkc : ':' ∉ bk := by
+      intro hc; apply hr5; rw [hbk]; simp [hc]
+    have hxc : ':' ∈ x := by rw [hxv]; simp
+    rcases hgrant with h | h | ⟨_, h⟩
+    · rw [h] at hxc; exact absurd hxc hadm
+    · rw [h] at hxc; exact absurd hxc ha
+    · have hsa : ':' ∉ mapToStatementAction x' := by
+        rcases mapTo_cases x' with h0 | ⟨_, _, hcol, _⟩
+        · rw [h0]; simp
+        · exact hcol
+      -- in every sub-case: mapTo x' = action or Admin, and the pattern matches the bucket
+      have key : ∀ tgt : Str, ':' ∉ tgt → tgt ≠ [] →
+          ((x.getLast? = some '*' ∧ x.dropLast.isPrefixOf (tgt ++ ':' :: bucket) = true) ∨
+           (x.getLast? ≠ some '*' ∧ x = tgt ++ ':' :: bucket)) →
+          mapToStatementAction x' = tgt ∧ globMatch bk bucket = true := by
+        intro tgt htc _ hcase
+        rcases hcase with ⟨hl, hp⟩ | ⟨_, he⟩
+        · -- wildcard: bk = g ++ "*" and g is a prefix of the bucket
+          have hbne : bk ≠ [] := by
+            intro hb; rw [hxv, hb] at hl; simp at hl
+          have hbl : bk.getLast? = some '*' := by
+            rw [hxv, getLast?_append_cons _ _ _ hbne] at hl
+            exact hl
+          obtain ⟨g, hg⟩ := exists_init_of_getLast? bk '*' hbl
+          have hdl : x.dropLast = mapToStatementAction x' ++ ':' :: g := by
+            rw [hxv, hg]
+            have : mapToStatementAction x' ++ ':' :: (g ++ ['*']) = (mapToStatementAction x' ++ ':' :: g) ++ ['*'] := by simp
+            rw [this, List.dropLast_concat]
+          rw [hdl] at hp
+          obtain ⟨e1, e2⟩ := prefix_colon _ _ _ _ hsa htc hp
+          obtain ⟨rest, hrest⟩ := List.isPrefixOf_iff_prefix.mp e2
+          exact ⟨e1, by rw [hg, ← hrest]; exact globMatch_prefix_star g rest⟩
+        · rw [hxv] at he
+          obtain ⟨e1, e2⟩ := eq_colon _ _ _ _ hsa htc he
+          exact ⟨e1, by rw [e2]; exact globMatch_self bucket⟩
+      have hrn : ∀ (_ : globMatch bk bucket = true), resourceNames res bucket :=
+        fun hg => ⟨region, account, r5, hres, Or.inr ⟨bk, hbk, hg⟩⟩
+      have hiam : ∀ tgt, tgt ≠ [] → mapToStatementAction x' = tgt → iamAction a = some tgt := by
+        intro tgt htn he
+        rcases mapTo_cases x' with h0 | ⟨_, hi, _, _⟩
+        · rw [h0] at he; exact absurd he.symm htn
+        · rw [hax, hi, he]
+      by_cases hl : x.getLast? = some '*'
+      · simp only [hl, if_true, Bool.or_eq_true] at h
+        rcases h with h | h
+        · obtain ⟨e, g⟩ := key action ha hne (Or.inl ⟨hl, h⟩)
+          exact ⟨hrn g, Or.inl (hiam action hne e)⟩
+        · obtain ⟨e, g⟩ := key adminA hadm (by decide) (Or.inl ⟨hl, h⟩)
+          exact ⟨hrn g, Or.inr (hiam adminA (by decide) e)⟩
+      · simp only [hl, if_false, Bool.or_eq_true, beq_iff_eq] at h
+        rcases h with h | h
+        · obtain ⟨e, g⟩ := key action ha hne (Or.inr ⟨hl, h⟩)
+          exact ⟨hrn g, Or.inl (hiam action hne e)⟩
+        · obtain ⟨e, g⟩ := key adminA hadm (by decide) (Or.inr ⟨hl, h⟩)
+          exact ⟨hrn g, Or.inr (hiam adminA (by decide) e)⟩
+
+
 end SwV.Lemmas.C26
